@@ -197,7 +197,7 @@ def Fn.Smooth : {n : Nat} → Fn ℝ n → CVec ℝ n → Prop
   | _, .l2, x => sumAbs2 x ≠ 0
   | _, .l1, x => ∀ i, Cx.abs2 (x i) ≠ 0
   | _, .huber δ true, _ => 0 < δ
-  | _, .huber δ false, x => 0 < δ ∧ sumAbs2 x ≠ 0
+  | _, .huber δ false, _ => 0 < δ
   | _, .l1ml2 _, x => (∀ i, Cx.abs2 (x i) ≠ 0) ∧ sumAbs2 x ≠ 0
   | _, .l21 _ grp, x => ∀ g, groupAbs2 grp x g ≠ 0
   | _, .scaled _ f, x => f.Smooth x
@@ -320,24 +320,40 @@ theorem contract_huber_sep (δ : ℝ) (hδ : 0 < δ) (x : CVec ℝ n) :
   · simp only [hc, if_false, Cx.conj_re, Cx.conj_im]
     ring
 
-theorem contract_huber_nonsep (δ : ℝ) (hδ : 0 < δ) (x : CVec ℝ n) (hx : sumAbs2 x ≠ 0) :
+theorem huberNonsepOf_eq (δ s : ℝ) (hs : 0 ≤ s) : huberNonsepOf δ s = huberOf δ (Real.sqrt s) := by
+  unfold huberNonsepOf
+  rw [huberOf_real, two_eq, hasSqrt_real, Real.mul_self_sqrt hs]
+
+/-- non-separable Huber norm (code after the repair): JAX's rules give the gradient at EVERY point,
+    `‖x‖ = δ` and `x = 0` included -/
+theorem contract_huber_nonsep (δ : ℝ) (hδ : 0 < δ) (x : CVec ℝ n) :
     JaxContract (Fn.huber δ false : Fn ℝ n).eval x ((Fn.huber δ false : Fn ℝ n).jaxGrad x) := by
   intro d
   simp only [Fn.eval, Fn.jaxGrad]
   have h := hasDerivAt_huber_comp hδ (hasDerivAt_sumAbs2 x d) (fun t => sumAbs2_nonneg _)
   rw [along_zero] at h
-  have hn := norm2_ne_zero x hx
-  refine HasDerivAt.congr' h (fun _ => rfl) ?_
+  refine HasDerivAt.congr' h (fun t => huberNonsepOf_eq δ _ (sumAbs2_nonneg _)) ?_
   rw [reBdot_eq, Finset.mul_sum]
   refine Finset.sum_congr rfl (fun i _ => ?_)
   show (if δ < norm2 x then δ / (2 * norm2 x) else 1 / 2) * _ = _
   by_cases hc : δ < norm2 x
-  · simp only [hc, if_true, Cx.smul_re, Cx.smul_im, Cx.divr_re, Cx.divr_im, Cx.conj_re, Cx.conj_im]
+  · have hn : norm2 x ≠ 0 := (lt_trans hδ hc).ne'
+    simp only [hc, if_true, Cx.smul_re, Cx.smul_im, Cx.divr_re, Cx.divr_im, Cx.conj_re, Cx.conj_im]
     field_simp
     ring
-  · simp only [hc, if_false, Cx.smul_re, Cx.smul_im, Cx.divr_re, Cx.divr_im, Cx.conj_re, Cx.conj_im]
-    field_simp
+  · simp only [hc, if_false, Cx.conj_re, Cx.conj_im]
     ring
+
+/-- the formula of the code before the repair agrees with it away from the origin -/
+theorem huberNonsepOld_eq (δ : ℝ) (x : CVec ℝ n) (hx : sumAbs2 x ≠ 0) :
+    huberNonsepOldJaxGrad δ x = (Fn.huber δ false : Fn ℝ n).jaxGrad x := by
+  have hn := norm2_ne_zero x hx
+  funext i
+  simp only [Fn.jaxGrad, huberNonsepOldJaxGrad]
+  by_cases hc : δ < norm2 x
+  · simp only [hc, if_true]
+  · simp only [hc, if_false]
+    apply Cx.ext' <;> simp <;> field_simp
 
 theorem contract_l21 {k : Nat} (grp : Fin n → Fin k) (x : CVec ℝ n) (hx : ∀ g, groupAbs2 grp x g ≠ 0) :
     JaxContract (Fn.l21 k grp : Fn ℝ n).eval x ((Fn.l21 k grp : Fn ℝ n).jaxGrad x) := by
@@ -463,7 +479,7 @@ theorem Fn.jaxContract : ∀ {n : Nat} (f : Fn ℝ n) (x : CVec ℝ n), f.Smooth
     intro x h
     cases sep with
     | true => exact contract_huber_sep δ h x
-    | false => exact contract_huber_nonsep δ h.1 x h.2
+    | false => exact contract_huber_nonsep δ h x
   | l1ml2 β => intro x h; exact contract_l1ml2 β x h.1 h.2
   | l21 k grp => intro x h; exact contract_l21 grp x h
   | scaled c f ih =>
@@ -525,6 +541,23 @@ theorem isGradAt_right (f : CVec ℝ (n + k) → ℝ) (x g : CVec ℝ (n + k)) (
       apply Cx.ext' <;> simp [along]
     · rw [along_vright, vright_vappend]
   rw [e]
+
+/-! ### real argument, complex operators -/
+
+theorem reInner_realPart_conj (jg d : CVec ℝ n) (hd : ∀ i, (d i).im = 0) :
+    reInner (scicoGrad (realPart jg)) d = reBdot jg d := by
+  unfold scicoGrad
+  rw [reInner_conjVec, reBdot_eq, reBdot_eq]
+  refine Finset.sum_congr rfl (fun i _ => ?_)
+  simp [realPart, hd i]
+
+/-- for a real argument only real directions exist; the real part of the gradient is then the gradient -/
+theorem Fn.isGradAt_realArg {n : Nat} (f : Fn ℝ n) (x : CVec ℝ n) (h : f.Smooth x) (d : CVec ℝ n)
+    (hd : ∀ i, (d i).im = 0) :
+    HasDerivAt (fun t : ℝ => f.eval (along x d t)) (reInner (f.gradRealArg x) d) 0 := by
+  unfold Fn.gradRealArg
+  rw [reInner_realPart_conj _ _ hd]
+  exact f.jaxContract x h d
 
 /-! ### second derivative of the squared-l2 loss along a line -/
 
